@@ -296,8 +296,8 @@ if __name__ == "__main__":
         for d in sorted(glob.glob(os.path.join(SEEDED, "*"))):
             if os.path.exists(os.path.join(d, "meta.json")):
                 meta = json.load(open(os.path.join(d, "meta.json")))
-                if "property" not in meta:
-                    continue  # behaviour-preserving change: see `benign`
+                if "property" not in meta or meta.get("origin", "").startswith("own sensitivity test of the thorough"):
+                    continue  # behaviour-preserving change (see `benign`) / thorough-only own test
                 run([os.path.basename(d)], meta.get("checks_to_run") or [meta["property"]])
     elif a[0] == "table":
         table("--update-design" in a)
